@@ -107,6 +107,12 @@ func pushGate(c *engine.Ctx) {
 		return (e.Field == fState && e.RHS == "config/v2.ConfigurationStatus_SYNCHRONIZED") ||
 			((e.Field == fTerm || e.Field == fMaster) && strings.Contains(e.LHS, ".Applied.Mastership."))
 	})
+	sawFill := false
+	defer func() {
+		if !sawFill {
+			o.Undecided("reconcileConfiguration|fill loop", "anchor not found: no path fills the pushed collection from a loop over Status.Applied.Values")
+		}
+	}()
 	for _, s := range sites {
 		e := s.Ev()
 		o.Site(c.P.Pos(e.Pos) + " " + c.Render(c.A.DescribeEvent(e)))
@@ -164,6 +170,17 @@ func pushGate(c *engine.Ctx) {
 				// the pushed collection: filled, unconditionally, from every applied value
 				if bad == "" && !strings.HasPrefix(le.Range, "make(map[config/v2.Index][]*config/v2.PathValue)") {
 					bad = "the push loop ranges over " + c.Render(le.Range) + ", not over the collection built from Status.Applied.Values"
+				}
+				// every value that enters the pushed collection is an applied value
+				base := strings.SplitN(le.Range, "#", 2)[0]
+				for j := 0; j < push && bad == ""; j++ {
+					ej := &p.Events[j]
+					if ej.Kind == engine.EvWrite && ej.Local == nil && strings.HasPrefix(ej.LHS, base+"[") && !strings.Contains(ej.RHS, "elem("+applied+")") {
+						bad = "the pushed collection receives " + c.Render(ej.RHS) + ", which is not an element of Status.Applied.Values: the re-push would send values that were never (successfully) applied"
+					}
+				}
+				if fill >= 0 {
+					sawFill = true
 				}
 				if bad == "" && fill >= 0 {
 					fe := &p.Events[fill]
